@@ -1,4 +1,4 @@
 From Coq Require Extraction ExtrOcamlBasic.
-From Centro Require Import Base.Sx Model.Median Spec.MedianSpec.
+From Centro Require Import Base.Sx Model.Median Model.MedianAlloc Spec.MedianSpec.
 Extraction Language OCaml.
-Extraction "extracted/c07.ml" entry_kernel entry_wrapper entry_geom entry_check entry_spec entry_corr entry_wcorr entry_merge.
+Extraction "extracted/c07.ml" entry_kernel entry_wrapper entry_geom entry_check entry_spec entry_corr entry_wcorr entry_merge entry_alloc.
